@@ -21,8 +21,8 @@ Ev == Trace[l]
 
 TEnc ==
     /\ Ev.ev = "enc"
-    /\ Encrypt(1)
-    /\ last'.type = Ev.type /\ last'.dir = Ev.dir
+    /\ Ev.type \in 65..71 /\ Encrypt(1, Ev.type)
+    /\ last'.dir = Ev.dir
     /\ last'.form = Ev.form                         \* FormPinned on the real wire object
     /\ Ev.iv # 0 /\ Ev.iv \notin seenIV             \* FreshIV (ids assigned by content)
     /\ seenIV' = seenIV \cup {Ev.iv}
